@@ -43,7 +43,20 @@ TEXT = {"<start>": ["<line>"], "<line>": ["<word>", "<word> <line>"], "<word>": 
 
 CRLF = {"<start>": ["<rec>"], "<rec>": ["<fld>\r\n", "<fld>\r\n<rec>"], "<fld>": ["<w>", "<w> \n<fld>", "<w>\x0c<fld>"], "<w>": ["a", "b", "7"]}
 
+BRK = {"<start>": ["<a>"], "<a>": ["{<b>}", "[<b>]", '"<b>"', "<b>-<b>", "(<b>)[<c>]", "<<b>>x", "\\<b>\\n<c>"], "<b>": ["x", "y"], "<c>": ["1", "2"]}
+
 SUGAR = {
+    "brk": [
+        '<a>.<b> = "x"',
+        '<a>.<c> = "1"',
+        'forall <a> a in start: a.<b>[2] = "y"',
+        'exists <a> a in start: (a.<b> = "y" and a.<c> = "2")',
+        'forall <a> a="\\x7b{<b> b}}" in start: (= b "x")',
+        'forall <a> a="\\x5b{<b> b}]" in start: (= b "x")',
+        'forall <a> a="\\"{<b> b}\\"" in start: (= b "y")',
+        'forall <a> a="\\\\{<b> b}\\\\n{<c> c}" in start: (not (= b c))',
+        'forall <a> a="({<b> b})\\x5b{<c> c}]" in start: (not (= b c))',
+    ],
     "crlf": [
         '<rec>.<fld> = "a"',
         '<rec>.<fld>.<w> = "b"',
@@ -309,7 +322,7 @@ def run(ctx: Ctx):
         return "infra"
     logging.disable(logging.CRITICAL)
     rng = ctx.rng
-    fixed = {"assgn": ASSGN, "nums": NUMS, "text": TEXT, "crlf": CRLF, "ops": ASSGN}
+    fixed = {"assgn": ASSGN, "nums": NUMS, "text": TEXT, "crlf": CRLF, "ops": ASSGN, "brk": BRK}
     for gname, texts in SUGAR.items():
         trees = gen_tree_for(rng, fixed[gname])
         for text in texts:
